@@ -60,16 +60,8 @@ def make_world(ctx):
 RESULTS = ["bare", "env-all", "env-build", "env-launch", "env-web", "full", "execd-missing"]
 
 
-def main(run):
-    run.bounds = {"layers": "n1 (subject: dir, toml, 3 SBOM files, plain file, env.build/Y.append, exec.d/p), n2 (bystander)",
-                  "callbacks": "types() arbitrary flags; existing_layer_strategy in {Keep, Update, Recreate, Err, default}; migrate_incompatible_metadata in "
-                               "{RecreateLayer, ReplaceMetadata, Err, default}; create/update return Err or one of 7 result shapes (no env, env entry in each "
-                               "of the 4 scopes incl. a process, env + exec.d + SBOM, exec.d with a missing source)",
-                  "histories": "one inductive step from any state satisfying the layer invariant"}
-    run.assumptions = ["layer invariant and metadata law as in C01", "env variable names are concrete here (C03 covers symbolic names)"]
-    run.outside = ["I/O faults (C12)", "permission bits/symlinks (C11)"]
-    P = run.program(CRATES)
-    install_all(P)
+def build_entry(run, P, results=None, lean=False):
+    """the trait-API entry point with a scripted Layer implementation (shared with C12's trait fault positions)"""
     P.type_hooks["UserM"] = MHook(False)
     P.assoc_metadata = "UserM"
     entry_fn = [k for k, f in P.funcs.items() if f.name.endswith("::handle_layer") and f.name.startswith("build::")]
@@ -86,7 +78,8 @@ def main(run):
     run.encoded(P, entry_fn + list(defaults.values()))
 
     def mk_result(ctx, which, tag):
-        shape = RESULTS[ctx.choose([True] * len(RESULTS), f"{which}-result")]
+        shapes = results or RESULTS
+        shape = shapes[ctx.choose([True] * len(shapes), f"{which}-result")]
         mid = z3.IntVal(500 if which == "create" else 600)
         env = NONE
         ents = []
@@ -139,7 +132,7 @@ def main(run):
         @summ("existing_layer_strategy")
         def _els(c2, c):
             ld = deref(c.args[2])
-            a = ["Keep", "Update", "Recreate", "Err", "default"][c2.choose([True] * 5, "strategy")]
+            a = ["Keep", "Update", "Recreate", "Err", "default"][c2.choose([True] * 4 + [not lean], "strategy")]
             c2.log.append(("strategy", ld, a, None))
             if a == "Err":
                 return Err(Opaque("BuildpackErr"))
@@ -150,7 +143,7 @@ def main(run):
         @summ("update")
         def _update(c2, c):
             ld = deref(c.args[2])
-            k = c2.choose([True, True, True], "update-ok?")
+            k = c2.choose([True, True, not lean], "update-ok?")
             if k == 1:
                 c2.log.append(("update", ld, "Err", None))
                 return Err(Opaque("BuildpackErr"))
@@ -164,7 +157,7 @@ def main(run):
         @summ("migrate_incompatible_metadata")
         def _mig(c2, c):
             gm = deref(c.args[2])
-            a = ["RecreateLayer", "ReplaceMetadata", "Err", "default"][c2.choose([True] * 4, "migrate")]
+            a = ["RecreateLayer", "ReplaceMetadata", "Err", "default"][c2.choose([True] * 3 + [not lean], "migrate")]
             c2.log.append(("migrate", gm, a, None))
             if a == "Err":
                 return Err(Opaque("BuildpackErr"))
@@ -193,6 +186,20 @@ def main(run):
             return {"res": f"Err:Layer:{getattr(inner, 'variant', '?')}", "detail": getattr(inner2, "variant", None)}
         return {"res": "Ok", "data": deref(r.fields[0])}
 
+    return entry
+
+
+def main(run):
+    run.bounds = {"layers": "n1 (subject: dir, toml, 3 SBOM files, plain file, env.build/Y.append, exec.d/p), n2 (bystander)",
+                  "callbacks": "types() arbitrary flags; existing_layer_strategy in {Keep, Update, Recreate, Err, default}; migrate_incompatible_metadata in "
+                               "{RecreateLayer, ReplaceMetadata, Err, default}; create/update return Err or one of 7 result shapes (no env, env entry in each "
+                               "of the 4 scopes incl. a process, env + exec.d + SBOM, exec.d with a missing source)",
+                  "histories": "one inductive step from any state satisfying the layer invariant"}
+    run.assumptions = ["layer invariant and metadata law as in C01", "env variable names are concrete here (C03 covers symbolic names)"]
+    run.outside = ["I/O faults (C12)", "permission bits/symlinks (C11)"]
+    P = run.program(CRATES)
+    install_all(P)
+    entry = build_entry(run, P)
     def world(ctx):
         ctx.thorough = run.tier == "thorough"
         return make_world(ctx)
@@ -401,6 +408,11 @@ def main(run):
         else:
             viol = real_violation(req, real, sig)
             run.candidate(f"trait:{sig}", f"script={req['script']} pre={[e['path'] for e in req['tree'] if e['path'].startswith('L/n1')]} -> {real['result']}; {viol}", req, bool(viol))
+
+
+def MODEL_TERMS():
+    return [z3.Int("k_n1_env_build"), z3.Int("k_n1_env_build_Y_append"), z3.Int("k_n1_exec_d"), z3.Int("k_n1_exec_d_p"),
+            z3.Bool("t_launch"), z3.Bool("t_build"), z3.Bool("t_cache"), z3.String("create_val"), z3.String("update_val")]
 
 
 def scenario_of(ctx, m):
